@@ -64,8 +64,11 @@ C8 == E.life.on =>
         /\ E.life.err = ""
         /\ LET PT == {p \in Allowed(recs, Im, pproc, PF) :
                          p >= segs[Len(segs)].first /\ E.res = ReadFromLoose(recs, segs, p, E.snap)}
-           IN PT = {} \/ E.life.res.err # "" \/ \E p \in PT :    \* (a loud failure is inside the statement)
-                 E.life.res = ReadFromLoose(Pre(recs, p) \o LifeRecs, segs, p + Len(LifeRecs), E.snap)
+           \* the second life ended with a clean Close: like any undamaged log it has to come back,
+           \* unless reading it is an error by the model too (a gap behind a received snapshot)
+           IN PT = {} \/ \E p \in PT :
+                 LET m == ReadFromLoose(Pre(recs, p) \o LifeRecs, segs, p + Len(LifeRecs), E.snap)
+                 IN IF m.err # "" THEN E.life.res.err # "" ELSE E.life.res = m
 \* the snapshot the restart loaded (LoadNewestAvailable over the image's snapshot directory with
 \* the markers ValidSnapshotEntries returned) is the newest file that is intact and marked valid,
 \* with the content that was saved under that name - or none
